@@ -105,6 +105,10 @@ def _builtin(name, arity):
             return s[:p - 1] + args[2] + s[p - 1:]
         if name == 'head':
             return args[0][:1]
+        if name == 'exists':
+            return (len(args[0]) > 0,)
+        if name == 'empty':
+            return (len(args[0]) == 0,)
         if name == 'tail':
             return args[0][1:]
         raise ModelError('XPST0017', name)
@@ -119,7 +123,7 @@ def _ints(v):
 
 
 BUILTINS = {'abs': 1, 'count': 1, 'sum': 1, 'reverse': 1, 'remove': 2, 'index-of': 2, 'insert-before': 3,
-            'head': 1, 'tail': 1}
+            'head': 1, 'tail': 1, 'exists': 1, 'empty': 1}
 
 
 def free_vars(ast, bound=frozenset()):
@@ -378,6 +382,15 @@ class Interp:
 
 # ---- rendering ------------------------------------------------------------------------------------
 
+def render_arg(a):
+    """An argument of a function call is an ExprSingle: for/let/some/every/if need no parentheses there
+    (and a parenthesised expression is materialised, which hides lazily consumed binders)."""
+    text = render(a)
+    if a[0] in ('for', 'let', 'some', 'every', 'if') and text.startswith('(') and text.endswith(')'):
+        return text[1:-1]
+    return text
+
+
 def render(a):
     t = a[0]
     r = render
@@ -411,14 +424,14 @@ def render(a):
     if t == 'named':
         return '%s#%d' % (a[1], a[2])
     if t == 'bi':
-        return '%s(%s)' % (a[1], ', '.join('?' if x[0] == '?' else r(x) for x in a[2:]))
+        return '%s(%s)' % (a[1], ', '.join('?' if x[0] == '?' else render_arg(x) for x in a[2:]))
     if t == 'call':
         f = r(a[1])
         if a[1][0] in ('fn', 'named'):
             f = '(%s)' % f
         return '%s(%s)' % (f, ', '.join('?' if x[0] == '?' else r(x) for x in a[2]))
     if t in ('for-each', 'filter'):
-        return '%s(%s, %s)' % (t, r(a[1]), r(a[2]))
+        return '%s(%s, %s)' % (t, render_arg(a[1]), r(a[2]))
     if t in ('fold-left', 'fold-right', 'for-each-pair'):
         return '%s(%s, %s, %s)' % (t, r(a[1]), r(a[2]), r(a[3]))
     if t == 'sort':
@@ -469,6 +482,9 @@ class Gen:
         shadow = sorted(k for k in env if not k.startswith('e') and k not in avoid)
         if shadow and r.random() < 0.6:
             return r.choice(shadow)         # shadow on purpose
+        if not cands:
+            self.counter += 1
+            return 'z%d' % self.counter
         return r.choice(cands)
 
     def vars_of(self, env, ty):
@@ -585,9 +601,24 @@ class Gen:
             if vs and r.random() < 0.5:
                 return ['var', r.choice(vs)]
             return ['seq'] + [['int', r.randint(0, 5)] for _ in range(r.choice([0, 1, 2, 3, 3]))]
-        k = r.randrange(16)
+        k = r.randrange(18)
         if self.scope_only and k in (5, 6, 7, 8, 9, 10):
-            k = r.choice([2, 3, 4, 11, 12, 13, 14])
+            k = r.choice([2, 3, 4, 11, 12, 13, 14, 16, 17])
+        if k in (16, 17):
+            # a binder whose result is only partly consumed (exists/empty/head/some), then the same name is read again
+            outer = [n for n, t in sorted(env.items()) if t == 'I' and not n.startswith('e')]
+            if outer:
+                self.features.add('abandoned-binder-then-reread')
+                self.binders += 1
+                name = r.choice(outer)
+                loop = ['for', name, self.gen_S({k_: v_ for k_, v_ in env.items() if k_ != name}, d - 1),
+                        r.choice([['var', name], ['mul', ['var', name], ['int', 2]]])]
+                if name in names_in(loop[2]):
+                    loop[2] = ['seq', ['int', 4], ['int', 5], ['int', 6]]
+                probe = r.choice([['bi', 'exists', loop], ['bi', 'empty', loop], ['eq', ['bi', 'head', loop], ['int', 4]],
+                                  ['some', 'q', loop, ['lt', ['int', 0], ['var', 'q']]]])
+                return ['seq', ['if', probe, ['int', 1], ['int', 0]], ['var', name]]
+            k = 3
         if k == 0:
             return ['seq'] + [['int', r.randint(0, 5)] for _ in range(r.choice([0, 1, 2, 3, 4]))]
         if k == 1 and vs:
